@@ -850,6 +850,25 @@ func (w *world) step() {
 				}
 			}
 		}
+	case k == 10 && rapid.Bool().Draw(t, "scopedPackageLevel"):
+		// SaveLevelAndSet: the package level (and the default logger's) inside the scope, the saved PACKAGE level
+		// for both after it
+		l := rapid.SampledFrom(vlib.Builtins).Draw(t, "pkgLevel")
+		saved := w.pkgLevel
+		w.hist = append(w.hist, fmt.Sprintf("restore := slog.SaveLevelAndSet(%v)", l))
+		restore := slog.SaveLevelAndSet(l)
+		w.noteLevel(l)
+		w.pkgLevel, w.nodes[0].level = l, l
+		w.checkGetters()
+		inside := slog.New()
+		if inside.Level() != l {
+			w.discrep("C10/isolation", "a logger made by the package-level New inside a SaveLevelAndSet(%v) scope starts at %v", l, inside.Level())
+		}
+		w.hist = append(w.hist, "restore()")
+		restore()
+		w.noteLevel(saved)
+		w.pkgLevel, w.nodes[0].level = saved, saved
+		w.labels["pkg-level-scope"] = true
 	case k == 10: // package-level SetLevel: the default logger and future package-level loggers
 		l := rapid.SampledFrom(vlib.Builtins).Draw(t, "pkgLevel")
 		w.hist = append(w.hist, fmt.Sprintf("slog.SetLevel(%v)", l))
